@@ -456,6 +456,9 @@ func (fv *FV) globalVar(e *Env, v *types.Var) Value {
 			if fv.eng.isSentinel(v) {
 				fv.s.assume(not(eq(c, tNull)))
 				fv.s.assume(sel(fv.entry.alloc, fv.rootOf(c)))
+				// a plain sentinel wraps nothing
+				fv.errIs(c, c)
+				fv.s.assume(Term{fmt.Sprintf("(forall ((t Ref)) (! (= (err_is %s t) (= %s t)) :pattern ((err_is %s t))))", c.S, c.S, c.S), sBool})
 				for _, o := range fv.sentinels {
 					fv.s.assume(not(eq(c, o)))
 				}
